@@ -669,17 +669,26 @@ fn rejoin(ctx: &mut Ctx, judge: u8) {
     }
 }
 
+/// the fair-queue component simulation with frequent closes: every stream whose end the queue has
+/// seen must be reported as closed exactly once, whatever else happens in the same poll (other
+/// streams waking themselves, running out of cooperative budget, inserts, removals)
+fn l1_closed_reports(ctx: &mut Ctx) {
+    crate::l1::CLOSE_HEAVY.with(|c| c.set(true));
+    crate::l1::run(ctx);
+}
+
 pub fn def() -> PropDef {
     let space: u64 = 36 * (stream_len(Kind::Pull) as u64 + 4);
     PropDef {
         id: "C16",
         level: "fault_enumeration",
-        rule: "cut_world: the case index enumerates socket type (9) x fault {orderly close, reset, read error, write error} x every byte offset of the victim's stream (greeting, READY, a 2-frame message with a 1-byte and an 8-byte size, a 1-frame message: ~370 offsets, i.e. every handshake stage, between messages, inside flags/length/body, between frames), first undisturbed, then under drawn transport/schedule; 1..3 bystanders with tagged traffic before and after; clauses others_affected, more_than_one_error, routed_to_failed_peer, sends_keep_failing, not_released, hang, no_quiescence; churn: 4..15 connect/exchange/disconnect cycles, retained connections counted; non-trivial = judgement reached; distinct = distinct (case, plan, schedule, transport)",
+        rule: "cut_world: the case index enumerates socket type (9) x fault {orderly close, reset, read error, write error} x every byte offset of the victim's stream (greeting, READY, a 2-frame message with a 1-byte and an 8-byte size, a 1-frame message: ~370 offsets, i.e. every handshake stage, between messages, inside flags/length/body, between frames), first undisturbed, then under drawn transport/schedule; 1..3 bystanders with tagged traffic before and after; clauses others_affected, more_than_one_error, routed_to_failed_peer, sends_keep_failing, not_released, hang, no_quiescence; churn: 4..15 connect/exchange/disconnect cycles, retained connections counted; l1_closed_reports: the fair-queue component simulation (3.9) with frequent closes, judged for 'every stream the queue polled to its end is reported as closed exactly once' (the report is what makes a socket release the peer); non-trivial = judgement reached; distinct = distinct (case, plan, schedule, transport)",
         assumptions: &["observation point: the socket has been polled to quiescence after the fault (recv drained / sends attempted); 'released' is asserted only after that", "TCP half-close is not injected (its meaning for 'peer is gone' is ambiguous in the statement)"],
         strata: vec![
             Stratum { name: "cut_world", quick: space + 60_000, thorough: (space * 40) * 8, exhaustive: (false, false), run: cut_world, what: "victim cut at every offset x fault kind x socket type, bystanders alive" },
             Stratum { name: "cut_world_connect", quick: space / 2 + 20_000, thorough: (space * 10) * 8, exhaustive: (false, false), run: cut_world_connect, what: "the same grid with the victim at the far end of a connection opened by connect()" },
             Stratum { name: "rejoin_same_identity", quick: 24_000, thorough: (400_000) * 8, exhaustive: (false, false), run: rejoin_same_identity, what: "departure (close / cut inside a message / reset / none: the old connection stays open and idle) and rejoin under the same announced identity at four timings" },
+            Stratum { name: "l1_closed_reports", quick: 200_000, thorough: 20_000_000, exhaustive: (false, false), run: l1_closed_reports, what: "fair-queue component simulation with frequent closes: every ended stream is reported as closed exactly once" },
             Stratum { name: "churn", quick: 18_000, thorough: (300_000) * 8, exhaustive: (false, false), run: churn, what: "repeated connect/disconnect cycles, retained connections" },
         ],
     }
